@@ -149,7 +149,13 @@ func (g *gen) randInst(f *Func, p *pool) *inst {
 				extra += fmt.Sprintf(", align %d", 1<<uint(rng.Intn(5)))
 			}
 			g.counts["inst:alloca"]++
-			return g.mk(Ptr(t, 0), fmt.Sprintf("alloca %s%s", t, extra))
+			as := 0
+			if g.feat.AllocaAS && rng.Intn(4) == 0 {
+				as = 1 + rng.Intn(5)
+				extra += fmt.Sprintf(", addrspace(%d)", as)
+				g.counts["inst:alloca-addrspace"]++
+			}
+			return g.mk(Ptr(t, as), fmt.Sprintf("alloca %s%s", t, extra))
 		case 10, 11: // load
 			ptr := p.pick(rng, func(t *Type) bool { return t.K == KPtr && t.Elem.sized() && t.Elem.K != KFunc })
 			if ptr == nil {
